@@ -1,6 +1,7 @@
 CONSTANTS
-  MaxT = 3
+  MaxT = 2
   VerifyCallbacks = {"csvdump", "simplestats"}
+  KSet = {1, 2, 3, 4, 5, 6, 7}
   Cap = 2
   AsIs = {}
   Scenarios <- MCScen
